@@ -19,6 +19,7 @@ from . import c08_hist as H
 from . import c08_ns as NS
 from . import c08_upd as U
 from . import c08_ini as INI
+from . import c08_cov as COV
 
 PROPERTY = 'C08'
 LEAN_TARGETS = ['CpProofs.C08', 'CpProofs.C08Hist', 'CpProofs.C08Ns', 'CpProofs.C08Upd', 'CpProofs.C08Eval', 'CpProofs.C08Ini', 'drv_c08']
@@ -1093,11 +1094,25 @@ def shared_object_probe(reprconf, text):
     return None
 
 
+def empty_value_probe(ctx):
+    """An option without a value (`key =`) is the empty string, as `unrepr('')` is."""
+    from cherrypy.lib import reprconf
+    case = {'lit': {'text': '', 'kind': 'empty'}}
+    ctx.case(case, nontrivial=True, key='lit:<empty>')
+    try:
+        got = (reprconf.unrepr(''), reprconf.Parser.load(io.StringIO('[/s]\nk =\n'))['/s']['k'])
+    except Exception as e:
+        got = type(e).__name__
+    if got != ('', ''):
+        ctx.oracle_fail(case, "an empty INI value gives %r, expected ''" % (got,), 'unrepr_empty')
+
+
 def rebind_probe(ctx):
     """Dotted names are evaluated on every load: after the attribute is rebound the same text gives the new object."""
     import sys
     import types
     from cherrypy.lib import reprconf
+    empty_value_probe(ctx)
     mod = types.ModuleType('c08_rebind_probe')
     sys.modules['c08_rebind_probe'] = mod
     try:
@@ -1574,7 +1589,8 @@ def check_any(ctx, cases, compare_model=True):
 
 
 def _export(sub):
-    return {'evaluations': sub.evaluations, 'nontrivial': list(sub._nontrivial), 'hist': sub.hist,
+    cov = COV.stop()
+    return {'cov_hits': cov.hits() if cov is not None else [], 'evaluations': sub.evaluations, 'nontrivial': list(sub._nontrivial), 'hist': sub.hist,
             'oracle_failures': sub.oracle_failures, 'disagreements': sub.disagreements,
             'compared': sub.disagreements_checked, 'lines': sub.driver.lines if sub.driver else 0,
             'samples': sub.samples[:2]}
@@ -1589,6 +1605,7 @@ def _worker(args):
     sub = common.Ctx(__import__('harness.c08', fromlist=['x']), 'thorough', seed)
     sub.rng = random.Random(seed)
     sub.lean = _WORKER_LEAN[0]
+    COV.start()
     check_config_cases(sub, [gen_config_case(sub.rng, i) for i in range(n)])
     H.check_hist_cases(sub, [H.gen_hist_case(sub.rng, i) for i in range(n // 2)])
     NS.check_ns_cases(sub, [NS.gen_ns_case(sub.rng) for _ in range(n * 2)])
@@ -1636,11 +1653,21 @@ def _worker_enum(args):
     lo, hi = args
     sub = common.Ctx(__import__('harness.c08', fromlist=['x']), 'thorough', 0)
     sub.lean = _WORKER_LEAN[0]
+    COV.start()
     check_config_cases(sub, [enum_scope_case(b) for b in range(lo, hi)])
     return _export(sub)
 
 
 def run(ctx):
+    cov = COV.start()
+    try:
+        _run(ctx, cov)
+    finally:
+        COV.stop()
+        cov.report(ctx)
+
+
+def _run(ctx, cov):
     for e in ctx.known:
         if e.get('witness'):
             check_any(ctx, [dict(e['witness'])])
@@ -1660,10 +1687,12 @@ def run(ctx):
     _WORKER_LEAN[0] = ctx.lean
     jobs = [(ctx.rng.randrange(1 << 30), 1000) for _ in range(48)]
     for res in common.parallel_map(_worker, jobs):
+        cov.add_hits(res.pop('cov_hits', []))
         c02._merge(ctx, res)
     total = 1 << len(ENUM_SCOPES)
     step = total // 32
     for res in common.parallel_map(_worker_enum, [(lo, lo + step) for lo in range(0, total, step)]):
+        cov.add_hits(res.pop('cov_hits', []))
         c02._merge(ctx, res)
     ctx.extra['exhaustive'] = True
     ctx.extra['exhaustive_scope_assignments'] = total
